@@ -226,6 +226,14 @@ Theorem C20_math_rules_accept_iff : forall orc dfuncs dvars sf_default sf_value 
 Proof. exact math_rules_accept_iff. Qed.
 Print Assumptions C20_math_rules_accept_iff.
 
+Theorem C20_exposed_user_constants_have_no_none : forall orc dfuncs dvars sf_default sf_value c uc out,
+  cfg_get "user_constants" c = PDict uc ->
+  math_rules orc dfuncs dvars sf_default sf_value (PDict c) = Ret out ->
+  exists c', out = PDict c' /\ cfg_get "user_constants" c' = PDict (kept_constants uc)
+             /\ forall k v, In (k, v) (kept_constants uc) -> v <> PNone /\ In (k, v) uc.
+Proof. exact math_rules_prunes_none_constants. Qed.
+Print Assumptions C20_exposed_user_constants_have_no_none.
+
 Theorem C20_whitelist_blacklist_spec : forall dfuncs bl wl,
   whitelist_blacklist_ok dfuncs bl wl = true <->
   (~ (truthy bl = true /\ truthy wl = true))
